@@ -484,6 +484,77 @@ theorem rresize_eq (env : Env) (v : Vec) (xs : List Id) (newLen : Nat) (value : 
       congr 2
       apply Vec.eq_of <;> simp [Vec.rafter, dropArg, rtruncateSpec_escaped]
 
+theorem rextendCloneSpec_exit (n : Nat) : ∀ (xs : List Id) (o : List Outcome),
+    (rextendCloneSpec xs n o).exit = .ret () ∨ (rextendCloneSpec xs n o).exit = .panic false := by
+  induction n with
+  | zero => intro xs o; simp [rextendCloneSpec]
+  | succ n ih =>
+    intro xs o
+    match o with
+    | [] => simp [rextendCloneSpec]
+    | .panic :: o => simp [rextendCloneSpec]
+    | .ret id :: o => simp only [rextendCloneSpec]; exact ih _ o
+
+theorem rresizeWith_eq (env : Env) (v : Vec) (xs : List Id) (newLen : Nat) (o : List Outcome)
+    (hs : v.slots = H (v.cap - v.len) ++ I xs) (hl : xs.length = v.len) :
+    rresizeWith env v newLen o =
+      .ok ⟨(if newLen > v.len then rgrown env v (newLen - v.len) else v).rafter
+              (rresizeWithSpec (rroom env v (newLen - v.len)) env.bombs xs newLen o),
+           (rresizeWithSpec (rroom env v (newLen - v.len)) env.bombs xs newLen o).exit,
+           (rresizeWithSpec (rroom env v (newLen - v.len)) env.bombs xs newLen o).rest⟩ := by
+  unfold rresizeWith rresizeWithSpec
+  by_cases h : newLen > v.len
+  · have h' : newLen > xs.length := by omega
+    simp only [h, h', ↓reduceIte, hl]
+    unfold rgrown rroom
+    cases hr : rreserve env v (newLen - v.len) with
+    | none =>
+      simp only [Option.getD_none, Option.isSome_none, rextendCloneSpecR, Bool.false_eq_true, ↓reduceIte, rafter_noop hs hl]
+    | some v' =>
+      have ⟨g, hc⟩ := rreserve_some hs hl hr
+      have hlen := g.len
+      simp only [Option.getD_some, Option.isSome_some, rextendCloneSpecR, ↓reduceIte]
+      have hloop := rextendWithLoop_eq (newLen - v.len) xs v' o (v'.cap - v'.len) v'.len g.slots (by omega)
+      have hrs : v'.rstart - 1 = v'.cap - v'.len - 1 := by simp [Vec.rstart]
+      rw [hrs, hloop]
+      have ⟨h1, h2, h3, h4⟩ := rextendCloneSpec_length (newLen - v.len) xs o
+      simp only
+      congr 2
+      · apply Vec.eq_of <;> simp [Vec.rafter, setLen, h3, h4, g.dropLog, g.escaped]
+        · exact H_congr (by omega)
+        · omega
+      · rcases rextendCloneSpec_exit (newLen - v.len) xs o with h | h <;> rw [h] <;> rfl
+  · have h' : ¬ newLen > xs.length := by omega
+    simp only [h, h', ↓reduceIte]
+    rw [rtruncate_eq env.bombs v xs newLen hs hl]
+    simp only [Vec.rafter]
+
+theorem rpopIf_eq (v : Vec) (xs : List Id) (o : List Outcome)
+    (hs : v.slots = H (v.cap - v.len) ++ I xs) (hl : xs.length = v.len) :
+    rpopIf v o = .ok ⟨v.rafter (rpopIfSpec xs o), (rpopIfSpec xs o).exit, (rpopIfSpec xs o).rest⟩ := by
+  unfold rpopIf rpopIfSpec
+  cases xs with
+  | nil =>
+    have h0 : v.len = 0 := by simpa using hl.symm
+    simp only [h0, ↓reduceIte]
+    rw [rafter_noop (by simpa using hs) (by simpa using hl)]
+  | cons x rest =>
+    have h0 : v.len ≠ 0 := by simp at hl; omega
+    simp only [h0, ↓reduceIte]
+    have hs1 : v.slots = H (v.cap - v.len) ++ Slot.init x :: I rest := by simpa using hs
+    rw [peek_mid hs1 (by simp [Vec.rstart])]
+    simp only
+    match o with
+    | [] => simp only [rafter_noop hs hl]
+    | .panic :: o => simp only [rafter_noop hs hl]
+    | .ret b :: o =>
+      by_cases hb : b ≠ 0
+      · simp only [hb, ne_eq, not_false_eq_true, ↓reduceIte]
+        rw [rpop_eq v (x :: rest) hs hl]
+        simp only [rpopSpec]
+        congr 2
+      · simp only [hb, ↓reduceIte, rafter_noop hs hl]
+
 /-! ## append / into_iter -/
 
 theorem rappend_eq (env : Env) (v other : Vec) (xs ys : List Id)
